@@ -71,9 +71,9 @@ PROPS["C20"] = dict(
           "each parsed from its textual form; tls-forms: /http, /https, /tls/http multiaddrs; end-to-end: a real sync client is given "
           "FromURL(publisher URL) and the path it requests is observed at a local HTTP server; helpers: address lists generated from labelled "
           "templates (public/private/loopback/unspecified/localhost/dns x http/https/tls-http/other) with duplicates, nils, permutations. "
-          "Address lists include zoned IPv6 addresses (/ip6zone/z/ip6/...) of every class over few zones and http/https directly after the host (no tcp component). distinct_nontrivial = distinct (scheme, host kind, port present, path character classes) tuples, (host kind, form), path classes seen end "
+          "Address lists include zoned IPv6 addresses (/ip6zone/z/ip6/...) of every class over few zones and http/https directly after the host (no tcp component). A quarter of the URL cases also convert the form older publishers advertise (/httpath/<url.PathEscape(path)>) with ToURL and expect the same path and scheme; MultiaddrsEqual is compared with multiset equality on lists with repeated addresses over three addresses (including every address twice against other addresses twice). distinct_nontrivial = distinct (scheme, host kind, port present, path character classes) tuples, (host kind, form), path classes seen end "
           "to end, and address-class multisets of size >=2."),
-    floors={"quick": {"path_space": 500, "path_plus": 500, "path_pct": 500, "host_ip6": 2000, "host_dns": 2000, "e2e_requests": 200, "multiplicity_checked": 1000},
+    floors={"quick": {"legacy_httpath_addresses": 8000, "repeated_address_lists_compared": 8000, "path_space": 500, "path_plus": 500, "path_pct": 500, "host_ip6": 2000, "host_dns": 2000, "e2e_requests": 200, "multiplicity_checked": 1000},
             "thorough": {"path_space": 20000, "path_plus": 20000, "host_ip6": 100000, "e2e_requests": 5000}},
     level_text=("Exploration: conversions are run on seeded URLs covering every host kind, port shape and path character class; the "
                 "oracle is equality of scheme, hostname, port and decoded path, plus the path a real sync client actually requests. "
@@ -92,7 +92,7 @@ PROPS["C17"] = dict(
           "entries carry metadata nil / empty / equal to / different from the looked-up metadata, main provider present or absent in either list, "
           "metadata lists shorter / longer / nil relative to the provider lists; delivered through a fake source and (1 in 5) through the HTTP/JSON "
           "source; GetResults is compared, in order, with a 30-line specification function, or must return an error; never panic. "
-          "A third of the cases expand the same cached record again with other metadata / another context id and then once more with the first arguments; one source list in 25 carries a null entry next to the record. distinct_nontrivial = distinct record shapes (sequence of set kinds, main-provider positions, metadata kinds, mismatch kinds) with "
+          "A third of the cases expand the same cached record again with other metadata / another context id and then once more with the first arguments; one source list in 25 carries a null entry next to the record. In a quarter of the sets that list the provider itself it is listed twice. distinct_nontrivial = distinct record shapes (sequence of set kinds, main-provider positions, metadata kinds, mismatch kinds) with "
           "extended providers."),
     floors={"quick": {"repeated_lookups_with_other_arguments": 15000, "source_lists_with_a_null_entry": 1500, "shape_md-shorter": 500, "shape_md-longer": 500, "shape_md-nil": 500, "via_http_json": 1000, "expanded_results": 5000, "updated_in_place_then_refreshed": 2000, "distinct": 3000}},
     level_text=("Exploration: GetResults is executed on seeded records covering every clause of the expansion rules and every list-length "
@@ -112,7 +112,7 @@ PROPS["C18"] = dict(
           "given; alterations: for seeded requests of every key type, bit flips located inside the public_key / payload_type / payload / signature "
           "fields of the envelope (found by parsing the protobuf) and at arbitrary bytes, skipped only when the independently parsed envelope is "
           "semantically identical; cross-feeding of ingest<->register bytes; an envelope with the ingest payload type sealed for another domain; "
-          "generic mutants for panics. distinct_nontrivial = distinct (signer key type, named key type, same?) and (request, field, key type) tuples."),
+          "generic mutants for panics. Request addresses are of the kinds providers register (tcp, /http, /https, /ws, quic-v1, DNS names, with a /p2p/ suffix). distinct_nontrivial = distinct (signer key type, named key type, same?) and (request, field, key type) tuples."),
     floors={"quick": {"requests_built_concurrently": 5000, "crafted_payloads_rejected": 800, "foreign_signer_pairs": 400, "alter_public_key": 1000, "alter_signature": 1000, "alter_payload": 1000, "cross_fed": 300}},
     level_text=("Exploration: the read functions are driven with every signer/named-provider pair of a 15-identity pool over all libp2p key "
                 "types and with thousands of located alterations of real sealed requests; acceptance must coincide with 'unaltered and signed by "
@@ -152,9 +152,9 @@ PROPS["C13"] = dict(
           "decode(encode(v)) == v with optional parts kept absent/present, re-encoding stable, generic-prototype+Unwrap == typed, Store twice => "
           "same CID, load typed/generic == v; chunk-roundtrip: 0..50 multihashes of six hash functions with/without next link, same checks; "
           "hostile: seeded mutants of dag-json and dag-cbor encodings through BytesToAdvertisement/BytesToEntryChunk: error or re-encodable "
-          "value, typed and generic paths agree, no panic. One address in six is a valid multiaddr in a non-canonical spelling (trailing slash, expanded IPv6, legacy /ipfs/) and must come back as written; one hostile input in 40 is a few bytes of white space or a lone token. distinct_nontrivial = option-bit combinations, chunk shapes and (mutation kind, codec, "
+          "value, typed and generic paths agree, no panic. One address in six is a valid multiaddr in a non-canonical spelling (trailing slash, expanded IPv6, legacy /ipfs/) and must come back as written; one hostile input in 40 is a few bytes of white space or a lone token. One chunk in 500 has the 16384 entries providers really publish (over a megabyte as DAG-JSON). distinct_nontrivial = option-bit combinations, chunk shapes and (mutation kind, codec, "
           "type) among ACCEPTED hostile inputs."),
-    floors={"quick": {"hostile_blank_or_lone_token_inputs": 1200, "hostile_accepted": 300, "hostile_rejected": 10000, "distinct": 150}},
+    floors={"quick": {"full_size_entry_chunks": 5, "hostile_blank_or_lone_token_inputs": 1200, "hostile_accepted": 300, "hostile_rejected": 10000, "distinct": 150}},
     level_text=("Exploration: the library's own encode/decode/store/load entry points are executed on every combination of optional parts and on "
                 "tens of thousands of mutated encodings; oracles are value equality, CID equality, typed/generic agreement and absence of panics."),
     level_note="Trusted: go-ipld-prime's codecs as the reference for what 'encodes' means; the harness's equality (nil ~ empty).",
@@ -261,9 +261,9 @@ PROPS["C16"] = dict(
           "and Next, which may legitimately wait, get a context that is cancelled after a grace period. interleavings: 2..4 goroutines with seeded "
           "scripts racing Close with the other calls, then calls after the Close completed must return the closed error; pubsub-shutdown: "
           "receiver on a real libp2p host + gossip topic, 1..3 concurrent closers, watcher goroutine must be gone; host-without-topic: a "
-          "receiver created with a libp2p host and no topic runs seeded call sequences around a Close. The sequences run once without and once with an allow filter that rejects the announcing peer. Sub-check close-wakes-blocked-calls: 1..3 Direct calls blocked on a full buffer, or Next calls on an empty one, with contexts that are never cancelled; 1..2 closers; every blocked call must return (hang rule applied to the blocked call itself) with the closed error. Sub-check calls-while-allow-callback-runs parks a Direct call inside the application's allow callback and makes the other calls meanwhile; a third of the pubsub shutdowns stop the shared pubsub before the receiver is closed. distinct_nontrivial = "
+          "receiver created with a libp2p host and no topic runs seeded call sequences around a Close. The sequences run once without and once with an allow filter that rejects the announcing peer. Sub-check close-wakes-blocked-calls: 1..3 Direct calls blocked on a full buffer, or Next calls on an empty one, with contexts that are never cancelled; 1..2 closers; every blocked call must return (hang rule applied to the blocked call itself) with the closed error. Sub-check calls-while-allow-callback-runs parks a Direct call inside the application's allow callback and makes the other calls meanwhile; a third of the pubsub shutdowns stop the shared pubsub before the receiver is closed. Sub-check resend-without-topic-peers: a receiver with WithResend(true) on a host that has no topic peers (topic created by the receiver, or given); Direct calls with contexts that are never cancelled must return and be delivered, also when Close races with them. distinct_nontrivial = "
           "distinct sequences / script sets."),
-    floors={"quick": {"calls_made_while_allow_callback_ran": 10, "sequences_with_repeated_close": 50, "concurrent_runs": 250, "pubsub_shutdowns": 4, "gossip_announcements_handled_before_close": 8, "host_without_topic_runs": 10, "blocked_calls_woken_by_close": 25, "sequences_with_rejecting_allow_filter": 100}},
+    floors={"quick": {"resend_receivers_without_topic_peers": 6, "calls_made_while_allow_callback_ran": 10, "sequences_with_repeated_close": 50, "concurrent_runs": 250, "pubsub_shutdowns": 4, "gossip_announcements_handled_before_close": 8, "host_without_topic_runs": 10, "blocked_calls_woken_by_close": 25, "sequences_with_rejecting_allow_filter": 100}},
     watchdog_s={"quick": 900, "thorough": 7200},
     gomaxprocs=4,
     level_text=("Exploration (sequential part exhaustive to the stated length): every call is observed to return; hangs are decided "
@@ -437,8 +437,8 @@ PROPS["C14"] = dict(
           "order reaches the fast listener out of order. Failing announce syncs are held at the publisher so that newer announcements queue "
           "behind them; every handling goroutine that ran a sync must have sent exactly one notification, and explicit syncs that ran and "
           "returned success must equal the notifications sent from explicit-sync goroutines. "
-          "One explicit sync in four is a resync or carries an explicit older stop CID (the head recorded as latest then does not change, the notification is due all the same). A share of the announcements carries an address the subscriber cannot use (the handling goroutine cannot start a sync): such a goroutine sends at most one notification. distinct_nontrivial = distinct run configurations."),
-    floors={"quick": {"listener_read-some-then-stall": 15, "announcements_with_an_unusable_address": 80, "explicit_resyncs": 100, "explicit_syncs_with_stop_cid": 80, "must_deliveries_checked": 600, "emitted_events": 500, "long_runs_with_stalled_listener": 5, "listener_stalled": 10, "listener_cancel-then-read": 10, "listener_cancel-after-n": 10, "announce_triggered_syncs_checked": 200, "held_notification_overlap_runs": 12, "explicit_syncs_completed": 300}},
+          "One explicit sync in four is a resync or carries an explicit older stop CID (the head recorded as latest then does not change, the notification is due all the same). A share of the announcements carries an address the subscriber cannot use (the handling goroutine cannot start a sync): such a goroutine sends at most one notification. A quarter of the explicit syncs have their context cancelled from the block hook (the caller gives up while the blocks are reported): a sync that completes all the same is notified like any other. Whether a notification was missed is decided per publisher by finding the notifications a listener had to get, in emission order, among those it received. distinct_nontrivial = distinct run configurations."),
+    floors={"quick": {"explicit_syncs_whose_context_ended_while_blocks_were_reported": 150, "listener_read-some-then-stall": 15, "announcements_with_an_unusable_address": 80, "explicit_resyncs": 100, "explicit_syncs_with_stop_cid": 80, "must_deliveries_checked": 600, "emitted_events": 500, "long_runs_with_stalled_listener": 5, "listener_stalled": 10, "listener_cancel-then-read": 10, "listener_cancel-after-n": 10, "announce_triggered_syncs_checked": 200, "held_notification_overlap_runs": 12, "explicit_syncs_completed": 300}},
     watchdog_s={"quick": 900, "thorough": 7200},
     level_text=("Exploration over schedules: each run's listeners are compared with the emission log; delivery obligations are derived from logical "
                 "timestamps so that only what the statement promises is demanded."),
